@@ -111,7 +111,14 @@ TReset ==
 \*  message_seq. disp = "model": the receiver is an endpoint without hooks (the reference implementation); the
 \*  event is the proxy's delivery of the datagram and the specification decides what the endpoint does with it.)
 Candidates(e) ==
-  IF Ev.inj # ""
+  IF Ev.inj \in {"inj_sh2", "inj_cert2", "inj_ske2"}
+  THEN {CASE Ev.inj = "inj_sh2"   -> [Msg("SH", Ev.ms) EXCEPT !.rnd = "rM", !.prof = "1"]
+          [] Ev.inj = "inj_cert2" -> [Msg("CERT", Ev.ms) EXCEPT !.cert = "certM"]
+          [] OTHER                -> [Msg("SKE", Ev.ms) EXCEPT !.dh = "dhM", !.sigDh = "dhM", !.sigBy = "certM",
+                                                               !.sigN = "M", !.sigCr = "*", !.sigSr = "*"]}
+  ELSE IF Ev.inj = "m_fin"      \* the Finished of an adversary that holds the share the endpoint derived its keys from
+  THEN {[Msg("FIN", Ev.ms) EXCEPT !.fin = Fin(IF e = "C" THEN "S" ELSE "C", ep[e].keys, ep[e].tr), !.enc = ep[e].keys]}
+  ELSE IF Ev.inj # ""
   THEN {[Msg(Ev.t, Ev.ms) EXCEPT !.bad = TRUE]}
   ELSE LET S == {i \in 1..Len(sent[Peer(e)]) :
                    sent[Peer(e)][i].t = Ev.t /\ (Ev.oms = -1 \/ sent[Peer(e)][i].ms = Ev.oms)}
